@@ -2,7 +2,7 @@
     nothing else.  Statements quoted by type from HistFacts.v, LifeFacts.v,
     MbFactsA.v (printed by [Check]). *)
 From MW Require Import Base Store Monad Usage Server Websocket Service Findings Inv Obs
-     ProtoFacts StepFacts MbFactsA LifeFacts HistFacts Corollaries CrashHist Inst_Params MbStable.
+     ProtoFacts StepFacts MbFactsA LifeFacts HistFacts Corollaries CrashHist Inst_Params MbStable FlagBridge.
 Local Open Scope list_scope.
 
 (** after ANY history from the initial state without crash events (any number of
@@ -120,3 +120,12 @@ Example C01_nonvacuous :
     [FAck None; FMessage "A" "p" "one" 0 None; FMessage "A" "p" "two" 1 None] /\
   ledger cfg (init cfg 0) h "a" "m" [] <> [].
 Proof. vm_compute. split; [reflexivity|discriminate]. Qed.
+
+(** * the adder's side is the side its connection bound with (quoted by type from FlagBridge.v) *)
+
+(** `with the adder's side`: [bound_to] is the connection's own bind command *)
+Theorem C01_bound_is_bind_cmd : ltac:(let t := type of bound_is_bind_cmd in exact t).
+Proof. exact bound_is_bind_cmd. Qed.
+Check C01_bound_is_bind_cmd.
+Print Assumptions C01_bound_is_bind_cmd.
+
